@@ -1,4 +1,56 @@
-From Dawn Require Import Build.Model.
-Theorem build_total_C02 : forall c w l, exists o, build c w l = o.
-Proof. intros; eexists; reflexivity. Qed.
-Print Assumptions build_total_C02.
+(** C02 — No spurious rebuilds.  Statements only; proofs in Build/Proofs_Fresh.v, Proofs_Noop.v, Proofs_Sim.v. *)
+From Dawn Require Import Build.Model Build.Proofs Build.Proofs_Sim Build.Proofs_Fresh Build.Proofs_Noop.
+
+(** Rebuilding an unchanged tree executes nothing: after a build (any mode but dry, any failing-body set, not killed) in
+    which every target of the requested closure was visited successfully, a plain build of the same label in a fresh
+    process executes no body, reports every visited target up to date, and leaves the persisted state as it was
+    (up to the load's invisible refresh).  For projects without always-targets (those run by definition). *)
+Theorem noop_rebuild :
+  forall c c0 w l,
+    c_dry c = false -> c_crashed c = false ->
+    c_always c0 = false -> c_dry c0 = false -> c_crashed c0 = false ->
+    link_ok (w_proj w) = true ->
+    topo_ok (w_proj w) [] (order_of (w_proj w) l) = true ->
+    (forall x d, lookup x (w_proj w) = Some d -> is_always d = false) ->
+    let o1 := build c w l in
+    (forall x, In x (order_of (w_proj w) l) -> exists v, lookup x (o_vis o1) = Some v) ->
+    (forall x v, lookup x (o_vis o1) = Some v -> v_res v = ROk) ->
+    let o2 := build c0 (o_w o1) l in
+    o_ran o2 = [] /\ (forall e, In e (o_events o2) -> exists x, e = EUpToDate x) /\ o_bad o2 = false /\
+    sim (o_w o2) (o_w o1).
+Proof. exact Proofs_Noop.noop_rebuild. Qed.
+Print Assumptions noop_rebuild.
+
+(** The persisted state is read only through the records of labels that exist, the files and the project: whatever else
+    differs between two trees (records of removed labels, stray temporaries, ghost history) cannot change a build. *)
+Theorem builds_depend_only_on_live_state :
+  forall c w1 w2 l, sim w1 w2 ->
+    o_events (build c w1 l) = o_events (build c w2 l) /\ o_ran (build c w1 l) = o_ran (build c w2 l) /\
+    o_res (build c w1 l) = o_res (build c w2 l) /\ o_bad (build c w1 l) = o_bad (build c w2 l) /\
+    sim (o_w (build c w1 l)) (o_w (build c w2 l)).
+Proof. exact Proofs_Sim.build_sim. Qed.
+Print Assumptions builds_depend_only_on_live_state.
+
+(** The load that starts every process rewrites function-target records with what it read: invisible and idempotent. *)
+Theorem load_refresh_invisible : forall w l, rec_of (load w) l = rec_of w l.
+Proof. exact Proofs.rec_of_load. Qed.
+Print Assumptions load_refresh_invisible.
+
+(** In the model a file is its content and a function environment is the number the harness assigns to its semantic text,
+    so timestamp-only touches, same-content rewrites and comment/whitespace edits are the identity on worlds; that the
+    implementation behaves like the model on exactly those edits is what the correspondence check and the "C02" oracle
+    of the engine harness decide.  NOT YET PROVED: irrelevant_edit (an edit outside the closure of l leaves build l
+    unchanged) -- needs a closure-restricted variant of [sim]. *)
+
+(** non-vacuity: a three-target project with a generated file consumed as a source; first build runs everything,
+    the rebuild runs nothing *)
+Example noop_example :
+  let pr := [(1, Fn [] [10] [100] 1 7 false); (2, Fn [1] [11] [101] 2 8 false); (3, Fn [2; 1] [] [] 3 9 false);
+             (10, Src 50); (11, Src 100)] in
+  let w := mkWorld pr [(50, CLit 1)] [] 1 0 [] [] in
+  let c := mkCfg false false [] false [] [] in
+  let o1 := build c w 3 in
+  link_ok pr = true /\ topo_ok pr [] (order_of pr 3) = true /\
+  o_ran o1 = [1; 2; 3] /\ forallb (fun lv => result_ok (v_res (snd lv))) (o_vis o1) = true /\
+  o_ran (build c (o_w o1) 3) = [].
+Proof. vm_compute. repeat split. Qed.
